@@ -24,6 +24,6 @@ Case == [base |-> base, decls |-> [k \in 1..Len(Decls) |-> [name |-> Decls[k].na
          vectors |-> Vectors(Decls)]
 Emit == PrintT(<<"CASE", ToJson(Case)>>)
 
-SchemaJson == [inputs |-> InputTypes, enums |-> EnumValues]
+SchemaJson == [inputs |-> InputTypes, enums |-> EnumValues, defaults |-> FieldDefaults]
 ASSUME PrintT(<<"SCHEMA", ToJson(SchemaJson)>>)
 =============================================================================
